@@ -2,6 +2,7 @@
 import json
 import os
 import vlib
+import evocheck
 
 LEVEL = "model_checking"
 
@@ -58,6 +59,8 @@ def run(ck):
                 modes[k] = modes.get(k, 0) + 1
         if sh == 0:
             samples = evs[:4]
+    evo = evocheck.run(ck, 500 if q else 20000)
+    total += len(evo)
     ck.cov["evaluations"] = total
     ck.cov["distinct_nontrivial"] = len(modes)
     ck.cov["conformance"]["set_like_population_model_states"] = getattr(res_set, "distinct", None)
@@ -83,4 +86,7 @@ def run(ck):
 
 def replay(ck, obj):
     r = obj["regen"]
+    if r.get("evolution"):
+        evocheck.tv(ck, 1, first=r["run"], tag="one")
+        return
     tv(ck, 1, first=r["run"], tag="one")
